@@ -8,7 +8,7 @@ import parserutil
 from core import hx, exc_name
 
 ID = 'C06'
-MODULES = ['Httoop.Props.C06']
+MODULES = ['Httoop.Props.C06', 'Httoop.Props.C06Invariant']
 THEOREMS = [
 	'Httoop.Parser.fixed_path_clean',
 	'Httoop.Parser.delivered_path_clean',
@@ -19,6 +19,10 @@ THEOREMS = [
 	'Httoop.Parser.defaults_applied',
 	'Httoop.Parser.encoded_dot_is_dot',
 	'Httoop.Parser.encoded_slash_not_separator',
+	'Httoop.Parser.run_sanitised',
+	'Httoop.Parser.feed_sanitised',
+	'Httoop.Parser.delivered_requests_sanitised',
+	'Httoop.Parser.c06_invariant_witness',
 ]
 TRUSTED = [
 	'the URI model (parse, normalize) of C10-C12 and the Host model (Model/Host.lean incl. the glibc inet_pton transcription) are tied by their own correspondences; hosts needing the idna codec are outside the model (skipped)',
@@ -198,5 +202,5 @@ def finding_still_fails(k):
 
 LEVEL_TEXT = ('Theorems for ALL request lines (every octet string as target): a request that gets past the start-line hooks has a path that normalisation leaves unchanged, hence - by C11\'s abspath theorems - is "*", empty, or starts with "/" '
 	'and has no "." / ".." / empty segment and no slash run, whatever percent-encoding spelled the dots (they are decoded before the comparison; an encoded slash stays inside its segment); its scheme class is http/https, it has no user information or fragment; '
-	'anything else is a 301/400/505. Host and port are set from the parsed Host field. Tied by correspondence over the token alphabet x Host forms.')
+	'anything else is a 301/400/505. As an INVARIANT OF THE STATE MACHINE (delivered_requests_sanitised): for every sequence of parse() calls with any octets, every request handed out has such a URI - the start-line phase establishes it, every later phase (header blocks, Host hook, body, trailers, delivery) leaves path, user information and fragment untouched, across calls. Host and port are set from the parsed Host field. Tied by correspondence over the token alphabet x Host forms.')
 LEVEL_NOTE = 'Trusted: Lean kernel; URI/Host models tested against the code (inet_pton transcription validated on 180k addresses); idna hosts skipped.'
